@@ -222,6 +222,79 @@ func init() {
 			}
 			runtime.GOMAXPROCS(prev)
 		}
+		// two shared registries with different configurations for the configurable CRL lint, used at the same time: every
+		// call gets what the same call gets alone under its own registry's configuration
+		{
+			cfgCA, _ := lint.NewConfigFromString("[e_crl_next_update_invalid]\nSubscriberCRL = false\n")
+			cfgSub, _ := lint.NewConfigFromString("[e_crl_next_update_invalid]\nSubscriberCRL = true\n")
+			mk := func(cfg *lint.Configuration) lint.Registry {
+				fr, err := g.Filter(lint.FilterOptions{ExcludeNames: []string{names[0]}})
+				if err != nil {
+					return nil
+				}
+				if cfg != nil {
+					fr.SetConfiguration(*cfg)
+				}
+				return fr
+			}
+			regsC := []lint.Registry{mk(nil), mk(&cfgCA), mk(&cfgSub)}
+			crls := append(append([]CorpusCRL{}, corpus.CRLs...), crlZoo()...)
+			type ck struct{ r, o int }
+			alone := map[ck]map[string]resKey{}
+			// the reference: each registry alone, in a separate pass per registry, before any mixing
+			for ri, r := range regsC {
+				if r == nil {
+					continue
+				}
+				for oi, cc := range crls {
+					alone[ck{ri, oi}] = resultsOf(zlint.LintRevocationListEx(cc.CRL, r))
+				}
+			}
+			var wg sync.WaitGroup
+			var mu sync.Mutex
+			var problems []string
+			for w := 0; w < 9; w++ {
+				wg.Add(1)
+				go func(id int) {
+					defer wg.Done()
+					defer func() {
+						if p := recover(); p != nil {
+							mu.Lock()
+							problems = append(problems, fmt.Sprintf("CRL linting panicked: %v", p))
+							mu.Unlock()
+						}
+					}()
+					ri := id % 3
+					if regsC[ri] == nil {
+						return
+					}
+					for rep := 0; rep < 6; rep++ {
+						for oi, cc := range crls {
+							crl, err := x509.ParseRevocationList(cc.DER)
+							if err != nil {
+								continue
+							}
+							got := resultsOf(zlint.LintRevocationListEx(crl, regsC[ri]))
+							for n, v := range alone[ck{ri, oi}] {
+								if got[n] != v {
+									mu.Lock()
+									if len(problems) < 8 {
+										problems = append(problems, fmt.Sprintf("CRL lint %s on %s under registry %d: %v while other registries with other configurations are in use, %v alone", n, cc.File, ri, got[n], v))
+									}
+									mu.Unlock()
+									break
+								}
+							}
+						}
+					}
+				}(w)
+			}
+			wg.Wait()
+			for _, pr := range problems {
+				out.Violate("C10|concurrent-config-differs", pr, map[string]interface{}{"registries": "empty / SubscriberCRL=false / SubscriberCRL=true", "goroutines": 9}, nil, nil)
+			}
+			out.Stats["concurrent_crl_calls"] = 9 * 6 * len(crls)
+		}
 		// concurrent Filter calls on the shared registry (every goroutine walks the reference filters in its own order)
 		{
 			var wg sync.WaitGroup
@@ -271,6 +344,7 @@ func init() {
 		ref, err := exec.Command(self, "c10cold", "seq").Output()
 		if err == nil {
 			for t := 0; t < trials; t++ {
+				tick()
 				got, err := exec.Command(self, "c10cold", "par").Output()
 				if err != nil {
 					out.Violate("C10|cold-start-crash", "a cold process whose first lint calls are concurrent crashed: "+err.Error(), nil, nil, nil)
